@@ -134,6 +134,10 @@ func runCaseWS(roots []*fnode, gmp int, batchSpins [nBatch]int, events, which in
 	defer setGMP(prev)
 
 	pre := gset()
+	plainQuery := events == 0 // a query (not a subscription) over the WebSocket: one execution
+	if plainQuery {
+		events, which = 1, 0
+	}
 	holder := &wsHolder{stream: make(chan *nodeObj)}
 	for e := 0; e < events; e++ {
 		r := newRun(b.items, b.conns)
@@ -178,7 +182,11 @@ func runCaseWS(roots []*fnode, gmp int, batchSpins [nBatch]int, events, which in
 	if _, ok := readType("connection_ack"); !ok {
 		panic("harness: no connection_ack")
 	}
-	start, _ := json.Marshal(map[string]interface{}{"query": "subscription{ev" + query + "}"})
+	wsQuery := "subscription{ev" + query + "}"
+	if plainQuery {
+		wsQuery = query
+	}
+	start, _ := json.Marshal(map[string]interface{}{"query": wsQuery})
 	conn.WriteJSON(wsMsg{Id: "1", Type: "start", Payload: start})
 
 	hang := false
@@ -186,15 +194,21 @@ func runCaseWS(roots []*fnode, gmp int, batchSpins [nBatch]int, events, which in
 	asyncResp := ""
 	differing := ""
 	for e := 0; e < events && !hang; e++ {
-		select {
-		case holder.stream <- &nodeObj{item: -1}:
-		case <-time.After(10 * time.Second):
-			hang = true
+		if !plainQuery {
+			select {
+			case holder.stream <- &nodeObj{item: -1}:
+			case <-time.After(10 * time.Second):
+				hang = true
+			}
 		}
 		var resp string
 		if !hang {
 			if m, ok := readType("data"); ok {
-				resp = canonicalWS(m.Payload)
+				if plainQuery {
+					resp = canonical(m.Payload)
+				} else {
+					resp = canonicalWS(m.Payload)
+				}
 			} else {
 				hang = true
 			}
@@ -240,8 +254,8 @@ func runCaseWS(roots []*fnode, gmp int, batchSpins [nBatch]int, events, which in
 	}
 	return sexp.T("case",
 		sexp.T("gmp", sexp.Int(gmp)),
-		sexp.T("ws", sexp.Int(events)),
-		sexp.T("query", sexp.Str("subscription{ev"+query+"}")),
+		sexp.T("ws", sexp.Int(map[bool]int{true: 0, false: events}[plainQuery])),
+		sexp.T("query", sexp.Str(wsQuery)),
 		sexp.T("items", sexp.L(items...)),
 		sexp.T("trace", sexp.L(tr...)),
 		sexp.T("delivered", sexp.L(r.deliveries...)),
